@@ -1,9 +1,11 @@
 //! vcore — the engine for the properties decided on the Rust crate through its public API plus
 //! the cfg(blake3_team_blake3_verif) hooks. One sub-engine per property; see /verif/DESIGN.md.
 mod c01;
+mod c09;
 mod hbfs;
 mod lanes;
 mod subject;
+mod xbfs;
 
 use vcommon::{Args, Report};
 
@@ -22,6 +24,8 @@ fn main() {
         let reproduced = match args.prop.as_str() {
             "C01" => c01::replay(&v),
             "C02" | "C10" => hbfs::replay(&v),
+            "C03" => xbfs::replay(&v),
+            "C09" => c09::replay(&v),
             _ => {
                 eprintln!("no replay for {}", args.prop);
                 std::process::exit(2);
@@ -33,6 +37,8 @@ fn main() {
     let (engine, level) = match args.prop.as_str() {
         "C01" => ("core/oneshot", "exploration"),
         "C02" | "C10" => ("core/hasher_bfs", "model_checking"),
+        "C03" => ("core/xof_bfs", "model_checking"),
+        "C09" => ("core/hazmat", "exploration"),
         _ => {
             eprintln!("vcore does not serve {}", args.prop);
             std::process::exit(2);
@@ -41,6 +47,8 @@ fn main() {
     let mut rep = Report::new(&args, engine, level);
     match args.prop.as_str() {
         "C01" => c01::run(&args, &mut rep),
+        "C03" => xbfs::run(&args, &mut rep),
+        "C09" => c09::run(&args, &mut rep),
         "C02" => {
             let t = args.thorough();
             let cfgs = vec![hbfs::cfg_fine("C02", t), hbfs::cfg_coarse("C02", t)];
